@@ -3,9 +3,9 @@
 #include "html/Quoting.h"
 #include "common.h"
 #ifdef VF_THOROUGH
-#define MAXN 5
+#define MAXN 2
 #else
-#define MAXN 3
+#define MAXN 1
 #endif
 // reference entity decoder
 static unsigned refDecode(const char *q, unsigned char *out)
@@ -28,9 +28,15 @@ extern "C" void c32_html_quote(void)
     vf_quiet();
     // two consecutive calls: covers the static buffer growth/reuse logic
     for (int round = 0; round < 2; ++round) {
-        const unsigned n = (unsigned)vf_concretize(vf_range(0, round ? MAXN : 1, round ? "len2" : "len1"));
+        // first call: "" or one character of each output-length class (1, 4, 5 and 6 output bytes); second call: fully symbolic
+        static const char first[5] = { 0, 'a', '<', '\x0b', '\x80' };
+        const unsigned sel = round ? 0 : (unsigned)vf_concretize(vf_range(0, 4, "first"));
+        const unsigned n = round ? (unsigned)vf_concretize(vf_range(0, MAXN, "len2")) : (sel ? 1 : 0);
         char *in = (char *)xmalloc(n + 1);
-        for (unsigned i = 0; i < n; ++i) { in[i] = (char)vf_nondet_u8("byte"); vf_assume(in[i] != 0); }
+        for (unsigned i = 0; i < n; ++i) {
+            if (round) { in[i] = (char)vf_nondet_u8("byte"); vf_assume(in[i] != 0); }
+            else in[i] = first[sel];
+        }
         in[n] = 0;
         const char *q = html_quote(in);
         const size_t ql = strlen(q);
